@@ -171,6 +171,8 @@ def run_check(prop, streams, argv, level_text='', trusted_base=(), assumptions=(
                 seen.add(k)
                 uniq.append(c)
         cases = uniq
+        if hasattr(st, 'prepare'):
+            st.prepare(cases)           # e.g. run the expensive implementation side of all cases in parallel
         impl_obs = [safe_impl(st, c) for c in cases]
         try:
             lits = [st.emit(c) for c in cases]
